@@ -75,12 +75,17 @@ for (n, d, f, shapes) in [
     ("c02_l1_move_", "reserve(end) + move_region + take_reserved: old extent becomes pending, region keyed at the reserved target, reservation consumed, len() accounts for the reservation",
      ["rawdb::Layout::{reserve,take_reserved,move_region,insert_region}"], "RHR RRPH HR"),
 ]:
-    reg(H(n, "rawdb", "C02", mem=8, timeout=2400, group=True, desc=d + " [shapes: " + shapes + "]",
-          bounds=L1B, functions=f, stubs=[FMT], also=("C01", "C05", "C10", "C12"),
-          quick_for={"c02_l1_lastq_": {"C02", "C05", "C10", "C12"}, "c02_l1_promoteq_": {"C02", "C01", "C05", "C10", "C12"},
-                     "c02_l1_last_": set(), "c02_l1_promote_": set(),
-                     "c02_l1_find_": {"C02"}, "c02_l1_compress_": {"C02"}, "c02_l1_remove_": {"C02"},
-                     "c02_l1_move_": {"C02"}}[n]))
+    if n in ("c02_l1_lastq_", "c02_l1_promoteq_"):
+        # quick-tier shapes: one invocation per shape so that they run in parallel (900 s budget)
+        qf = {"c02_l1_lastq_": {"C02", "C05", "C10", "C12"}, "c02_l1_promoteq_": {"C02", "C01", "C05", "C10", "C12"}}[n]
+        for sh in shapes.split():
+            reg(H(n + sh.lower(), "rawdb", "C02", mem=8, timeout=800, desc=d + " [shape: " + sh + "]",
+                  bounds=L1B, functions=f, stubs=[FMT], also=("C01", "C05", "C10", "C12"), quick_for=qf))
+    else:
+        reg(H(n, "rawdb", "C02", mem=8, timeout=2400, group=True, desc=d + " [shapes: " + shapes + "]",
+              bounds=L1B, functions=f, stubs=[FMT], also=("C01", "C05", "C10", "C12"),
+              quick_for={"c02_l1_last_": set(), "c02_l1_promote_": set(), "c02_l1_find_": set(),
+                         "c02_l1_compress_": {"C02"}, "c02_l1_remove_": set(), "c02_l1_move_": set()}[n]))
 
 
 # ---------------------------------------------------------------------------------------------
@@ -312,6 +317,14 @@ def write_evidence(prop, tier, seed, hs, results, wall, violations, digest, know
         "seed": seed,
         "level": LEVEL.get(prop, "model_checking"),
         "coverage": {
+            # model_checking keys: what the bounded model checker explored on this run (measured)
+            "states": max(1, sum(r.get("steps", 0) for r in results)),
+            "transitions": max(1, sum(r.get("vccs", 0) for r in results)),
+            "traces_validated_against_impl": sum(1 for r in results if (r.get("replay") or {}).get("confirmed")),
+            "states_rule": "states = SSA steps of the unrolled programs CBMC symbolically executed (sum over harnesses); "
+                           "transitions = verification conditions remaining after simplification that went to the SAT solver; "
+                           "traces_validated_against_impl = counterexample traces replayed natively by Kani concrete playback "
+                           "and confirmed to fail (0 on a clean tree)",
             "evaluations": len(results),
             "distinct_nontrivial": len(nontrivial),
             "rule": "one evaluation = one solver query (Kani harness: CBMC symbolic execution of the "
